@@ -53,6 +53,24 @@ theorem lstep_inv {s s' : LState} {a : LAct} (hinv : LInv s) (h : lstep s a = so
     have e : LPc.holds .waiting = false := rfl
     simp only [LInv, List.countP_append, List.countP_cons, List.countP_nil, e]
     exact ⟨by simpa using h1, h2⟩
+  | callRead kind k cn =>
+    simp only [lstep, Option.some.injEq] at h; subst h
+    have e : LPc.holds .waiting = false := rfl
+    simp only [LInv, List.countP_append, List.countP_cons, List.countP_nil, e]
+    exact ⟨by simpa using h1, h2⟩
+  | baseCopied i =>
+    simp only [lstep] at h
+    split at h
+    · rename_i c hc
+      split at h
+      · rename_i hpc; cases h
+        have := countP_set_eq (fun c : LCaller => c.pc.holds) s.callers i { c with pc := .afterBase none } c hc
+        rw [hpc] at this; simp only [holds_waiting, holds_inBase, holds_afterBase, holds_done] at this
+        simp only [LInv]; constructor
+        · simp at this; omega
+        · exact h2
+      · cases h
+    · cases h
   | cancel i =>
     simp only [lstep] at h
     split at h
@@ -113,7 +131,7 @@ theorem lstep_inv {s s' : LState} {a : LAct} (hinv : LInv s) (h : lstep s a = so
     · rename_i c hc
       split at h
       · rename_i r hpc; cases h
-        have := countP_set_eq (fun c : LCaller => c.pc.holds) s.callers i { c with pc := .done r } c hc
+        have := countP_set_eq (fun c : LCaller => c.pc.holds) s.callers i { c with pc := .done (c.final s.sink r) } c hc
         rw [hpc] at this; simp only [holds_waiting, holds_inBase, holds_afterBase, holds_done] at this
         simp only [LInv]; constructor
         · simp at this; omega
